@@ -72,13 +72,18 @@ type pipeJob struct {
 	OutDir  string            `json:"outdir"` // prefix of generated paths up to the language directory ("out")
 	Langs   []string          `json:"langs"`
 	Pkgs    []string          `json:"pkgs"`
-	Sched   *schedule         `json:"sched,omitempty"`
+	// FinalPrefix: when set, codegen.Transforms.FinalPasses = [PrefixObjectNames{Prefix}] - the programmatic way of
+	// configuring a name-changing transformation that runs at the end of EVERY language's chain
+	FinalPrefix string    `json:"final_prefix,omitempty"`
+	Sched       *schedule `json:"sched,omitempty"`
 }
 
 type schedule struct {
 	Plan   map[string]int `json:"plan,omitempty"` // occurrence index -> code (see verifsched)
 	Random uint64         `json:"random,omitempty"`
 	Sites  []string       `json:"sites,omitempty"` // restrict Random to these sites
+	// Reverse: every occurrence of these sites is reversed
+	Reverse []string `json:"reverse,omitempty"`
 }
 
 func (s *schedule) String() string {
@@ -121,6 +126,9 @@ func applySchedule(s *schedule) {
 		fmt.Sscanf(k, "%d", &i)
 		verifapi.SchedSet(i, v)
 	}
+	if len(s.Reverse) > 0 {
+		verifapi.SchedSetReverseSites(s.Reverse)
+	}
 	if s.Random != 0 {
 		verifapi.SchedSetRandom(s.Random)
 		if len(s.Sites) > 0 {
@@ -142,7 +150,11 @@ func loadPipeline(job *pipeJob) (*verifapi.Pipeline, error) {
 	if params == nil {
 		params = map[string]string{}
 	}
-	return verifapi.PipelineFromFile(job.Yaml, verifapi.PipelineParameters(params))
+	p, err := verifapi.PipelineFromFile(job.Yaml, verifapi.PipelineParameters(params))
+	if err == nil && job.FinalPrefix != "" {
+		p.Transforms.FinalPasses = verifapi.Passes{&verifapi.PrefixObjectNames{Prefix: job.FinalPrefix}}
+	}
+	return p, err
 }
 
 // runOnce executes generate (+ inspect) under the given schedule. keep: retain contents for diffs.
@@ -873,10 +885,11 @@ func c07Immut(args []string) int {
 	out := bufio.NewWriter(os.Stdout)
 	defer out.Flush()
 	type immutJob struct {
-		ID     string    `json:"id"`
-		Yaml   string    `json:"yaml"`
-		Chains []string  `json:"chains"` // compiler passes files applied as explicit chains
-		Sched  *schedule `json:"sched,omitempty"`
+		ID          string    `json:"id"`
+		Yaml        string    `json:"yaml"`
+		Chains      []string  `json:"chains"` // compiler passes files applied as explicit chains
+		FinalPrefix string    `json:"final_prefix,omitempty"`
+		Sched       *schedule `json:"sched,omitempty"`
 	}
 	for in.Scan() {
 		if len(bytes.TrimSpace(in.Bytes())) == 0 {
@@ -901,6 +914,9 @@ func c07Immut(args []string) int {
 			if err != nil {
 				rec["err"] = "config: " + err.Error()
 				return
+			}
+			if job.FinalPrefix != "" {
+				p.Transforms.FinalPasses = verifapi.Passes{&verifapi.PrefixObjectNames{Prefix: job.FinalPrefix}}
 			}
 			schemas, err := p.LoadSchemas(ctx)
 			if err != nil {
